@@ -291,3 +291,232 @@ Print Assumptions C01_deep_compile_correct_partial.
 Print Assumptions C01_deep_output_correct_partial.
 Print Assumptions C01_deep_compile_correct_any_plan_partial.
 Print Assumptions C01_deep_gadget_bodies.
+
+(* ====================================================================================== *)
+(* C01 bridge: the ring reading is the evaluator model.                                       *)
+(*                                                                                              *)
+(* [reval] (Model/RingEval.v) is the little interpreter in which the per-run T:ring            *)
+(* obligations, the deep-model theorems above and the maskcheck theorem of C03 read a graph.   *)
+(* Its instance [reval_Z w n] at arrays of n elements modulo 2^w (Model/RingEvalInst.v) was    *)
+(* tied to the code only by the `ring-reading` correspondence cases.  The theorems below link  *)
+(* it to Graph/Eval.v: on EVERY node list of the elementwise fragment ([wf_ring_graph T],      *)
+(* Model/RingEvalWf.v, a boolean the harness evaluates on every exported compiled graph:       *)
+(* T:wf-ring-graph) and EVERY tape whose Input / Random / PRF entries have the recorded shape  *)
+(* ([wf_ring_tape T], also a boolean), the evaluator model succeeds, the reading is defined,   *)
+(* and every node value of the reading matches the evaluator's ([rv_matches]: equal element    *)
+(* lists for arrays, component-wise for tuples, PRF keys opaque).                              *)
+(*                                                                                              *)
+(* The fragment ([node_ok]): one common leaf type T (array or scalar, all dimensions positive) *)
+(* with w = width of its scalar type (1 for bits: xor/and are + and * modulo 2), n = number of *)
+(* elements.  Zeros / Ones / Constant of type T (constants with n elements); Add / Subtract /  *)
+(* Multiply of two earlier nodes of type T; NOP; CreateTuple; TupleGet (index in range of a    *)
+(* tuple-typed earlier node); Random of any non-tuple type other than T (the keys); PRF of     *)
+(* type T on an earlier node; Input of any type.  Recorded types must be consistent            *)
+(* (CreateTuple: the tuple of the dependency types, TupleGet: the component, NOP: the same)    *)
+(* and dependencies must point backwards.  Elements need NOT be normalised: both sides reduce  *)
+(* modulo 2^w after every operation and copy everything else.                                  *)
+(* ====================================================================================== *)
+From CC Require Import Model.RingEvalInst Model.RingEvalWf.
+From CC Require Proofs.RingEvalBridge.
+
+(* both sides are defined, and agree node for node (the reading's inputs are the tape's Input entries) *)
+Theorem C01_ring_reading_total :
+  forall (T : ty) (tape : Z -> option value) (nodes : list node),
+  wf_ring_graph T nodes = true -> wf_ring_tape T nodes tape = true ->
+  exists vals env,
+    eval_graph_nodes nodes tape = Ok vals /\
+    reval_Z (ring_w T) (ring_n T) tape nodes [] (map in_of_value (tape_inputs nodes tape)) = Some env /\
+    Forall2 (fun rv v => rv_matches rv v = true) env vals.
+Proof. exact RingEvalBridge.ring_reading_total. Qed.
+
+(* in the form computed by the `ring-reading` tie: no node of the reading differs from the evaluator's value *)
+Theorem C01_ring_reading_agrees_with_eval :
+  forall (T : ty) (tape : Z -> option value) (nodes : list node) (vals : list value),
+  wf_ring_graph T nodes = true -> wf_ring_tape T nodes tape = true ->
+  eval_graph_nodes nodes tape = Ok vals ->
+  reading_mismatch (ring_w T) (ring_n T) tape nodes (tape_inputs nodes tape) vals = -1.
+Proof. exact RingEvalBridge.ring_reading_agrees. Qed.
+
+(* the same with the width, the element count and the input list given separately, as the
+   `ring-reading` cases print them *)
+Theorem C01_ring_reading_agrees_with_eval_wn :
+  forall (w : Z) (n : nat) (T : ty) (tape : Z -> option value) (nodes : list node) (ins vals : list value),
+  w = width (st_of T) -> Z.of_nat n = prod_list (dims T) -> ins = tape_inputs nodes tape ->
+  wf_ring_graph T nodes = true -> wf_ring_tape T nodes tape = true ->
+  eval_graph_nodes nodes tape = Ok vals ->
+  reading_mismatch w n tape nodes ins vals = -1.
+Proof.
+  intros w n T tape nodes ins vals -> Hn -> Hg Ht He.
+  replace n with (ring_n T) by (unfold ring_n; lia).
+  now apply RingEvalBridge.ring_reading_agrees.
+Qed.
+
+(* conversely: whenever the side conditions hold the evaluator model cannot fail (no Err, no Panic) *)
+Theorem C01_ring_fragment_evaluates :
+  forall (T : ty) (tape : Z -> option value) (nodes : list node),
+  wf_ring_graph T nodes = true -> wf_ring_tape T nodes tape = true ->
+  exists vals, eval_graph_nodes nodes tape = Ok vals.
+Proof.
+  intros T tape nodes Hg Ht. destruct (RingEvalBridge.ring_reading_total T tape nodes Hg Ht) as (vals & _ & E & _).
+  eauto.
+Qed.
+
+(* ---- non-vacuity 1: an exported compiled graph (ring-reading case of a quick run, seed 1: source
+   (x - c) * y over u64[3] with x owned by party 1 and y public, revealed to party 2; 24 nodes:
+   three PRF keys and their sends, the input sharing of x by a zero sharing from three PRF outputs,
+   the share-wise products with the public operand, the reveal), with the tape (keys, inputs, PRF
+   outputs) and the node values the REAL evaluator produced ---- *)
+Definition bx_T : ty := TArray [3] U64.
+Definition bx_nodes : list node :=
+  [ mkNode (ORandom (TArray [128] Bit)) [] [] [] (TArray [128] Bit);
+    mkNode ONOP [0] [] [(ASend 0 2)] (TArray [128] Bit);
+    mkNode (ORandom (TArray [128] Bit)) [] [] [] (TArray [128] Bit);
+    mkNode ONOP [2] [] [(ASend 1 0)] (TArray [128] Bit);
+    mkNode (ORandom (TArray [128] Bit)) [] [] [] (TArray [128] Bit);
+    mkNode ONOP [4] [] [(ASend 2 1)] (TArray [128] Bit);
+    mkNode (OInput (TArray [3] U64)) [] [] [] (TArray [3] U64);
+    mkNode (OPRF 1 (TArray [3] U64)) [1] [] [] (TArray [3] U64);
+    mkNode (OPRF 2 (TArray [3] U64)) [3] [] [] (TArray [3] U64);
+    mkNode (OPRF 3 (TArray [3] U64)) [5] [] [] (TArray [3] U64);
+    mkNode OSubtract [7; 8] [] [] (TArray [3] U64);
+    mkNode OSubtract [8; 9] [] [] (TArray [3] U64);
+    mkNode OSubtract [9; 7] [] [] (TArray [3] U64);
+    mkNode OAdd [11; 6] [] [] (TArray [3] U64);
+    mkNode ONOP [10] [] [(ASend 0 2)] (TArray [3] U64);
+    mkNode ONOP [13] [] [(ASend 1 0)] (TArray [3] U64);
+    mkNode ONOP [12] [] [(ASend 2 1)] (TArray [3] U64);
+    mkNode (OInput (TArray [3] U64)) [] [] [] (TArray [3] U64);
+    mkNode OMultiply [17; 14] [] [] (TArray [3] U64);
+    mkNode OMultiply [17; 15] [] [] (TArray [3] U64);
+    mkNode OMultiply [17; 16] [] [] (TArray [3] U64);
+    mkNode ONOP [19] [] [(ASend 1 2)] (TArray [3] U64);
+    mkNode OAdd [18; 21] [] [] (TArray [3] U64);
+    mkNode OAdd [22; 20] [] [] (TArray [3] U64) ].
+Definition bx_tape : Z -> option value :=
+    tape_of_list [(0, (VArr [0; 0; 1; 1; 1; 0; 0; 1; 1; 1; 0; 0; 0; 1; 1; 0; 1; 0; 1; 0; 1; 1; 1; 0; 0; 0; 1;
+    0; 0; 1; 1; 0; 1; 1; 1; 0; 1; 0; 1; 0; 1; 0; 0; 0; 0; 1; 1; 1; 0; 0; 1; 1; 0; 1; 0; 0; 0; 1; 0; 1; 0; 1; 0;
+    1; 1; 1; 0; 0; 1; 0; 0; 1; 0; 0; 1; 1; 1; 1; 0; 1; 0; 1; 0; 0; 1; 1; 1; 1; 0; 1; 1; 1; 0; 1; 0; 0; 0; 0; 0;
+    0; 1; 0; 1; 0; 0; 1; 1; 0; 0; 0; 0; 1; 0; 1; 1; 1; 0; 0; 0; 1; 0; 1; 0; 1; 0; 1; 1; 0])); (2, (VArr [0; 1;
+    0; 1; 1; 1; 1; 1; 1; 1; 0; 1; 1; 1; 0; 0; 0; 1; 1; 0; 1; 1; 1; 0; 1; 0; 0; 1; 1; 0; 0; 1; 0; 1; 0; 1; 1; 1;
+    0; 0; 1; 1; 1; 0; 1; 0; 0; 1; 0; 0; 1; 0; 0; 0; 0; 1; 1; 0; 1; 0; 0; 0; 0; 0; 0; 1; 0; 0; 1; 0; 1; 1; 1; 0;
+    0; 0; 0; 1; 0; 0; 0; 1; 0; 0; 1; 0; 1; 1; 1; 0; 0; 1; 0; 0; 1; 0; 0; 1; 0; 1; 1; 1; 0; 1; 1; 1; 1; 1; 1; 1;
+    0; 1; 0; 1; 1; 0; 1; 0; 0; 0; 0; 1; 0; 1; 0; 0; 0; 1])); (4, (VArr [0; 1; 1; 1; 1; 1; 0; 0; 0; 0; 1; 0; 0;
+    0; 0; 1; 1; 1; 0; 1; 0; 1; 1; 1; 1; 1; 0; 0; 1; 1; 0; 1; 1; 1; 0; 0; 0; 0; 1; 0; 1; 1; 0; 1; 0; 1; 0; 1; 1;
+    0; 0; 0; 1; 0; 1; 1; 1; 0; 1; 1; 0; 1; 0; 1; 0; 1; 0; 0; 0; 1; 1; 0; 0; 1; 1; 0; 1; 0; 1; 1; 1; 1; 1; 0; 0;
+    1; 0; 1; 1; 1; 0; 1; 0; 0; 1; 0; 1; 1; 0; 1; 0; 1; 1; 1; 1; 1; 0; 1; 1; 1; 0; 1; 1; 1; 1; 0; 1; 1; 1; 0; 0;
+    0; 1; 0; 0; 0; 0; 0])); (6, (VArr [3428867244332439221; 1; 18446744073709551615])); (7, (VArr
+    [4535101808109251321; 7164641082508230782; 6233012399756779005])); (8, (VArr [17818495607694349361;
+    13780539050412078618; 17118402848845066413])); (9, (VArr [14408031351685031158; 12035667409487603255;
+    10480464471466987386])); (17, (VArr [9223372036854775808; 1; 18446744072585488029]))].
+Definition bx_vals : list value :=
+    [(VArr [0; 0; 1; 1; 1; 0; 0; 1; 1; 1; 0; 0; 0; 1; 1; 0; 1; 0; 1; 0; 1; 1; 1; 0; 0; 0; 1; 0; 0; 1; 1; 0; 1;
+    1; 1; 0; 1; 0; 1; 0; 1; 0; 0; 0; 0; 1; 1; 1; 0; 0; 1; 1; 0; 1; 0; 0; 0; 1; 0; 1; 0; 1; 0; 1; 1; 1; 0; 0; 1;
+    0; 0; 1; 0; 0; 1; 1; 1; 1; 0; 1; 0; 1; 0; 0; 1; 1; 1; 1; 0; 1; 1; 1; 0; 1; 0; 0; 0; 0; 0; 0; 1; 0; 1; 0; 0;
+    1; 1; 0; 0; 0; 0; 1; 0; 1; 1; 1; 0; 0; 0; 1; 0; 1; 0; 1; 0; 1; 1; 0]); (VArr [0; 0; 1; 1; 1; 0; 0; 1; 1; 1;
+    0; 0; 0; 1; 1; 0; 1; 0; 1; 0; 1; 1; 1; 0; 0; 0; 1; 0; 0; 1; 1; 0; 1; 1; 1; 0; 1; 0; 1; 0; 1; 0; 0; 0; 0; 1;
+    1; 1; 0; 0; 1; 1; 0; 1; 0; 0; 0; 1; 0; 1; 0; 1; 0; 1; 1; 1; 0; 0; 1; 0; 0; 1; 0; 0; 1; 1; 1; 1; 0; 1; 0; 1;
+    0; 0; 1; 1; 1; 1; 0; 1; 1; 1; 0; 1; 0; 0; 0; 0; 0; 0; 1; 0; 1; 0; 0; 1; 1; 0; 0; 0; 0; 1; 0; 1; 1; 1; 0; 0;
+    0; 1; 0; 1; 0; 1; 0; 1; 1; 0]); (VArr [0; 1; 0; 1; 1; 1; 1; 1; 1; 1; 0; 1; 1; 1; 0; 0; 0; 1; 1; 0; 1; 1; 1;
+    0; 1; 0; 0; 1; 1; 0; 0; 1; 0; 1; 0; 1; 1; 1; 0; 0; 1; 1; 1; 0; 1; 0; 0; 1; 0; 0; 1; 0; 0; 0; 0; 1; 1; 0; 1;
+    0; 0; 0; 0; 0; 0; 1; 0; 0; 1; 0; 1; 1; 1; 0; 0; 0; 0; 1; 0; 0; 0; 1; 0; 0; 1; 0; 1; 1; 1; 0; 0; 1; 0; 0; 1;
+    0; 0; 1; 0; 1; 1; 1; 0; 1; 1; 1; 1; 1; 1; 1; 0; 1; 0; 1; 1; 0; 1; 0; 0; 0; 0; 1; 0; 1; 0; 0; 0; 1]); (VArr
+    [0; 1; 0; 1; 1; 1; 1; 1; 1; 1; 0; 1; 1; 1; 0; 0; 0; 1; 1; 0; 1; 1; 1; 0; 1; 0; 0; 1; 1; 0; 0; 1; 0; 1; 0;
+    1; 1; 1; 0; 0; 1; 1; 1; 0; 1; 0; 0; 1; 0; 0; 1; 0; 0; 0; 0; 1; 1; 0; 1; 0; 0; 0; 0; 0; 0; 1; 0; 0; 1; 0; 1;
+    1; 1; 0; 0; 0; 0; 1; 0; 0; 0; 1; 0; 0; 1; 0; 1; 1; 1; 0; 0; 1; 0; 0; 1; 0; 0; 1; 0; 1; 1; 1; 0; 1; 1; 1; 1;
+    1; 1; 1; 0; 1; 0; 1; 1; 0; 1; 0; 0; 0; 0; 1; 0; 1; 0; 0; 0; 1]); (VArr [0; 1; 1; 1; 1; 1; 0; 0; 0; 0; 1; 0;
+    0; 0; 0; 1; 1; 1; 0; 1; 0; 1; 1; 1; 1; 1; 0; 0; 1; 1; 0; 1; 1; 1; 0; 0; 0; 0; 1; 0; 1; 1; 0; 1; 0; 1; 0; 1;
+    1; 0; 0; 0; 1; 0; 1; 1; 1; 0; 1; 1; 0; 1; 0; 1; 0; 1; 0; 0; 0; 1; 1; 0; 0; 1; 1; 0; 1; 0; 1; 1; 1; 1; 1; 0;
+    0; 1; 0; 1; 1; 1; 0; 1; 0; 0; 1; 0; 1; 1; 0; 1; 0; 1; 1; 1; 1; 1; 0; 1; 1; 1; 0; 1; 1; 1; 1; 0; 1; 1; 1; 0;
+    0; 0; 1; 0; 0; 0; 0; 0]); (VArr [0; 1; 1; 1; 1; 1; 0; 0; 0; 0; 1; 0; 0; 0; 0; 1; 1; 1; 0; 1; 0; 1; 1; 1; 1;
+    1; 0; 0; 1; 1; 0; 1; 1; 1; 0; 0; 0; 0; 1; 0; 1; 1; 0; 1; 0; 1; 0; 1; 1; 0; 0; 0; 1; 0; 1; 1; 1; 0; 1; 1; 0;
+    1; 0; 1; 0; 1; 0; 0; 0; 1; 1; 0; 0; 1; 1; 0; 1; 0; 1; 1; 1; 1; 1; 0; 0; 1; 0; 1; 1; 1; 0; 1; 0; 0; 1; 0; 1;
+    1; 0; 1; 0; 1; 1; 1; 1; 1; 0; 1; 1; 1; 0; 1; 1; 1; 1; 0; 1; 1; 1; 0; 0; 0; 1; 0; 0; 0; 0; 0]); (VArr
+    [3428867244332439221; 1; 18446744073709551615]); (VArr [4535101808109251321; 7164641082508230782;
+    6233012399756779005]); (VArr [17818495607694349361; 13780539050412078618; 17118402848845066413]); (VArr
+    [14408031351685031158; 12035667409487603255; 10480464471466987386]); (VArr [5163350274124453576;
+    11830846105805703780; 7561353624621264208]); (VArr [3410464256009318203; 1744871640924475363;
+    6637938377378079027]); (VArr [9872929543575779837; 4871026326979372473; 4247452071710208381]); (VArr
+    [6839331500341757424; 1744871640924475364; 6637938377378079026]); (VArr [5163350274124453576;
+    11830846105805703780; 7561353624621264208]); (VArr [6839331500341757424; 1744871640924475364;
+    6637938377378079026]); (VArr [9872929543575779837; 4871026326979372473; 4247452071710208381]); (VArr
+    [9223372036854775808; 1; 18446744072585488029]); (VArr [0; 11830846105805703780; 16068225552301500944]);
+    (VArr [0; 1744871640924475364; 8521314897937123242]); (VArr [9223372036854775808; 4871026326979372473;
+    12303947698304542633]); (VArr [0; 1744871640924475364; 8521314897937123242]); (VArr [0;
+    13575717746730179144; 6142796376529072570]); (VArr [9223372036854775808; 1; 1124063587])].
+
+(* sanity: the evaluator model reproduces the real node values, the side conditions hold, the
+   reading is defined and has no mismatch (all computed) *)
+Example C01_bridge_example_computes :
+  eval_graph_nodes bx_nodes bx_tape = Ok bx_vals /\
+  wf_ring_graph bx_T bx_nodes = true /\ wf_ring_tape bx_T bx_nodes bx_tape = true /\
+  ring_w bx_T = 64 /\ ring_n bx_T = 3%nat /\
+  length (tape_inputs bx_nodes bx_tape) = 2%nat /\
+  reading_mismatch 64 3 bx_tape bx_nodes (tape_inputs bx_nodes bx_tape) bx_vals = -1.
+Proof. vm_compute. repeat split; reflexivity. Qed.
+
+(* the theorem applies to it (hypotheses satisfiable), and its conclusion is the computed fact *)
+Example C01_bridge_example_applies :
+  reading_mismatch 64 3 bx_tape bx_nodes (tape_inputs bx_nodes bx_tape) bx_vals = -1.
+Proof.
+  apply (C01_ring_reading_agrees_with_eval_wn 64 3 bx_T); try reflexivity; vm_compute; reflexivity.
+Qed.
+
+(* ---- non-vacuity 2 (hand-made, bits, w = 1, with tuples): a shared input x = (x0, x1, x2) of
+   type bit[2,2] is taken apart, revealed (x0 + x1 + x2), multiplied by a constant, masked with a PRF
+   output under a fresh key, and put in a tuple with Zeros and Ones ---- *)
+Definition by_T : ty := TArray [2; 2] Bit.
+Definition by_key : ty := TArray [128] Bit.
+Definition by_nodes : list node :=
+  [ mkNode (OInput (TTuple [by_T; by_T; by_T])) [] [] [] (TTuple [by_T; by_T; by_T]);
+    mkNode (OTupleGet 0) [0] [] [] by_T;
+    mkNode (OTupleGet 1) [0] [] [] by_T;
+    mkNode (OTupleGet 2) [0] [] [] by_T;
+    mkNode (OConstant by_T (VArr [1; 1; 0; 1])) [] [] [] by_T;
+    mkNode (ORandom by_key) [] [] [] by_key;
+    mkNode (OPRF 0 by_T) [5] [] [] by_T;
+    mkNode OAdd [1; 2] [] [] by_T;
+    mkNode OAdd [7; 3] [] [] by_T;
+    mkNode OMultiply [8; 4] [] [] by_T;
+    mkNode OSubtract [9; 6] [] [] by_T;
+    mkNode (OZeros by_T) [] [] [] by_T;
+    mkNode (OOnes by_T) [] [] [] by_T;
+    mkNode OCreateTuple [10; 11; 12; 5] [] [] (TTuple [by_T; by_T; by_T; by_key]);
+    mkNode ONOP [13] [] [ASend 0 1] (TTuple [by_T; by_T; by_T; by_key]);
+    mkNode (OTupleGet 0) [14] [] [] by_T ].
+Definition by_tape : Z -> option value :=
+  tape_of_list [ (0, VTup [VArr [1; 0; 1; 0]; VArr [1; 1; 0; 0]; VArr [0; 1; 1; 1]]);
+                 (5, VArr [1; 0; 1]);   (* keys are opaque: any value *)
+                 (6, VArr [0; 1; 1; 0]) ].
+
+Example C01_bridge_example2_computes :
+  wf_ring_graph by_T by_nodes = true /\ wf_ring_tape by_T by_nodes by_tape = true /\
+  ring_w by_T = 1 /\ ring_n by_T = 4%nat /\
+  (* node 8 = x0 + x1 + x2 (the reveal), node 15 = reveal * constant - PRF output, all modulo 2 *)
+  match eval_graph_nodes by_nodes by_tape with
+  | Ok vals => nth 8 vals (VArr []) = VArr [0; 0; 0; 1] /\ nth 15 vals (VArr []) = VArr [0; 1; 1; 1] /\
+               reading_mismatch 1 4 by_tape by_nodes (tape_inputs by_nodes by_tape) vals = -1
+  | _ => False
+  end.
+Proof. vm_compute. repeat split; reflexivity. Qed.
+
+Example C01_bridge_example2_applies :
+  exists vals env,
+    eval_graph_nodes by_nodes by_tape = Ok vals /\
+    reval_Z 1 4 by_tape by_nodes [] (map in_of_value (tape_inputs by_nodes by_tape)) = Some env /\
+    Forall2 (fun rv v => rv_matches rv v = true) env vals.
+Proof. apply (C01_ring_reading_total by_T); vm_compute; reflexivity. Qed.
+
+(* the side conditions are not vacuous either way: a Multiply whose operand has another shape is
+   rejected (there the evaluator broadcasts and the reading would not), and so is a tape entry of
+   the wrong length *)
+Example C01_bridge_wf_rejects :
+  wf_ring_graph by_T [ mkNode (OInput by_T) [] [] [] by_T; mkNode (OInput (TArray [2] Bit)) [] [] [] (TArray [2] Bit);
+                       mkNode OMultiply [0; 1] [] [] by_T ] = false /\
+  wf_ring_tape by_T [ mkNode (OInput by_T) [] [] [] by_T ] (tape_of_list [(0, VArr [1; 0; 1])]) = false /\
+  wf_ring_graph by_T [ mkNode (OInput by_T) [] [] [] by_T; mkNode OAdd [0; 2] [] [] by_T ] = false.
+Proof. vm_compute. repeat split; reflexivity. Qed.
+
+Print Assumptions C01_ring_reading_total.
+Print Assumptions C01_ring_reading_agrees_with_eval.
+Print Assumptions C01_ring_reading_agrees_with_eval_wn.
+Print Assumptions C01_ring_fragment_evaluates.
